@@ -44,7 +44,8 @@ LEVEL_NOTE = ('Coq kernel + vm_compute; hand-written model (Model/Circuit.v rena
               'Connect.v replace_subcircuit, Sem.v), generated operator tables (T1); correspondence harness. Hypotheses: WF c '
               '(rename, replace_inputs, remove_gate: inputs_nullary is NOT needed for the semantic statements); '
               'replace_subcircuit: Inv c, Inv sub (as C02) and arity_ok c (needed: a replacement may read a mapped input the '
-              'replaced slice ignored; if that host gate has no value (operator arity TypeError) the outputs lose their value); '
+              'replaced slice ignored; if that host gate has no value (operator arity TypeError) the outputs lose their value: proved witness '
+              'C19_replace_subcircuit_arity_needed); '
               'the equivalence hypothesis of replace_subcircuit is stated per host assignment ("sub maps the host values of '
               'the cut to the host values of the mapped outputs"), which is implied by functional equality on all cut '
               'assignments. Statements are about Eval; the evaluators are tied to Eval by C01 (soundness half used for the two '
